@@ -74,6 +74,9 @@ type cframe struct {
 
 var opNameRe = regexp.MustCompile(`Op(\d+)`)
 
+var hookOnce sync.Once
+var gnamesCur atomic.Value // *sync.Map of the running session
+
 func Run(rc *core.RunCtx) {
 	t := rc.Tape
 	w := rc.W
@@ -141,14 +144,16 @@ func Run(rc *core.RunCtx) {
 	sources := map[string]*source{}
 	var violation string
 	var violationSite string
+	var vmu sync.Mutex // separate from mu: flag is called with mu held
 	flag := func(site, format string, args ...any) {
-		mu.Lock()
+		vmu.Lock()
 		if violation == "" {
 			violation, violationSite = fmt.Sprintf(format, args...), site
 		}
-		mu.Unlock()
+		vmu.Unlock()
 	}
-	var gnames sync.Map // goroutine id -> operation name, for subscribe goroutines
+	gnames := &sync.Map{} // goroutine id -> operation name, for subscribe goroutines
+	gnamesCur.Store(gnames)
 	u.OnCall = func(ctx context.Context, kind, path string) {
 		if role, gid := core.GoroutineRoleID(); role == "subscribe" {
 			gnames.Store(gid, u.KeyPrefix(ctx))
@@ -181,14 +186,16 @@ func Run(rc *core.RunCtx) {
 
 	// lock grants: every acquisition of a transport mutex is a scheduler decision, so that which
 	// goroutine wins a contended wsConnection.mu is on the tape, not up to the Go scheduler
-	transport.SimLockHook = func(free func() bool) {
-		role, gid := core.GoroutineRoleID()
-		if n, ok := gnames.Load(gid); ok && role == "subscribe" {
-			role += ":" + n.(string)
+	core.SetCurrent(w)
+	hookOnce.Do(func() {
+		transport.SimLockHook = func(free func() bool) {
+			role, gid := core.GoroutineRoleID()
+			if n, ok := gnamesCur.Load().(*sync.Map).Load(gid); ok && role == "subscribe" {
+				role += ":" + n.(string)
+			}
+			core.ParkLock(role, free)
 		}
-		w.Park("lock", role, free)
-	}
-	defer func() { transport.SimLockHook = nil }()
+	})
 
 	// network
 	sc, cc := net.Pipe()
@@ -733,9 +740,9 @@ func Run(rc *core.RunCtx) {
 	}
 	synctest.Wait()
 
-	mu.Lock()
+	vmu.Lock()
 	vio, vsite := violation, violationSite
-	mu.Unlock()
+	vmu.Unlock()
 	if vio != "" {
 		rc.Fail(vsite, "monitor", "%s\n%s", vio, desc())
 		return
